@@ -79,7 +79,7 @@ impl Prop for C08 {
         (prop_oneof![40 => small, 1 => large], any::<u64>()).prop_map(|(g, sel)| OptCase { g, sel }).boxed()
     }
     fn random_cases(&self, tier: Tier) -> u32 {
-        tier.pick(5_000, 150_000)
+        tier.pick(10_000, 150_000)
     }
     fn enumerate(&self, _tier: Tier) -> Vec<OptCase> {
         let mut v = vec![];
